@@ -61,9 +61,9 @@ func newRaceReport() string {
 }
 
 type execResult struct {
-	res   sched.Result
-	obs   [][]string
-	race  string
+	res             sched.Result
+	obs             [][]string
+	race            string
 	extraGoroutines int
 }
 
@@ -178,17 +178,17 @@ func raceSite(rep string) string {
 }
 
 type workerStats struct {
-	Executions   int64            `json:"executions"`
-	Points       int64            `json:"points"`
-	Decisions    int64            `json:"decisions"`
-	MaxDecisions int              `json:"max_decisions"`
-	Preempted    int64            `json:"executions_with_preemption"`
-	Outcomes     map[string]int64 `json:"outcomes"`
-	Violations   []violationRec   `json:"violations"`
-	Expired      bool             `json:"expired"`
-	ExtraGoroutines int           `json:"extra_goroutines"`
-	SelfCheck    string           `json:"determinism_selfcheck"`
-	Sample       []int            `json:"sample_schedule"`
+	Executions      int64            `json:"executions"`
+	Points          int64            `json:"points"`
+	Decisions       int64            `json:"decisions"`
+	MaxDecisions    int              `json:"max_decisions"`
+	Preempted       int64            `json:"executions_with_preemption"`
+	Outcomes        map[string]int64 `json:"outcomes"`
+	Violations      []violationRec   `json:"violations"`
+	Expired         bool             `json:"expired"`
+	ExtraGoroutines int              `json:"extra_goroutines"`
+	SelfCheck       string           `json:"determinism_selfcheck"`
+	Sample          []int            `json:"sample_schedule"`
 }
 
 type violationRec struct {
@@ -330,6 +330,9 @@ func workerMain(args []string) int {
 	e.explore(nil, 0)
 	raw, _ := json.Marshal(e.st)
 	fmt.Println("RESULT " + string(raw))
+	if staticDir != "" {
+		_ = os.RemoveAll(staticDir)
+	}
 	return 0
 }
 
@@ -487,6 +490,9 @@ func c05Replay(raw json.RawMessage) (bool, string) {
 	newRaceReport()
 	er := runOnce(sc, c.Threads, c.Choices)
 	bad, kind := judge(sc, c.Threads, er)
+	if staticDir != "" {
+		_ = os.RemoveAll(staticDir)
+	}
 	if kind == "HARNESS-nondeterminism" {
 		return false, bad
 	}
